@@ -5,6 +5,7 @@ import (
 	"fmt"
 	"os"
 	"sort"
+	"strconv"
 	"strings"
 	"testing"
 	"time"
@@ -527,6 +528,13 @@ func checkC02(c *hk.Ctx, s *sys, sc *scenario, wf *wfSpec, prop string) {
 							cause = "noncritical-task-not-active-fails-deploy"
 						} else if c.Stats["fault.offer_late"] > 0 {
 							cause = "offer-round-without-a-host-deploys-nothing"
+						} else if any && startStallDen > 0 && c.S.Stats["fault.goroutine_start_stall"] > 0 {
+							// only with VERIF_START_STALL, in a run where a goroutine was held back:
+							// the TASK_RUNNING of a launched task can reach the core while the offers
+							// round that launched it is still in progress (DESIGN 12.10: the task is
+							// entered into the roster after the round). Attribution by circumstance,
+							// exploratory mode only.
+							cause = "status-update-before-roster-entry"
 						}
 					} else if strings.Contains(r.Err, "roles undeployable") && c.Stats["fault.offer_late"] > 0 && !fullRound(s, wf) {
 						// the same finding, when every one of the three attempts met such a round
@@ -642,9 +650,16 @@ var H = &hk.Harness{
 	},
 }
 
+var startStallDen int
+
 func TestSim(t *testing.T) {
 	if p := os.Getenv("SIM_PROP"); p != "" {
 		H.Property = p
+	}
+	// late goroutine starts (a collector spawned before a request is sent may run only after the
+	// answer arrived): exploratory knob, off in the registered checks (DESIGN 12.10)
+	if n, _ := strconv.Atoi(os.Getenv("VERIF_START_STALL")); n > 0 {
+		H.StartStallDen, startStallDen = n, n
 	}
 	hk.Main(t, H)
 }
